@@ -236,6 +236,10 @@ Proof.
   - inversion H; subst. apply andb_true_intro. split; [assumption|now apply IH].
 Qed.
 
+Lemma Forall2_weaken {A B} (P Q : A -> B -> Prop) l1 l2 :
+  (forall a b, P a b -> Q a b) -> Forall2 P l1 l2 -> Forall2 Q l1 l2.
+Proof. intros H F. induction F; constructor; auto. Qed.
+
 Lemma share_ok_iff W w wd : share_ok W w wd = true <->
   (0 <= wd)%Z /\ (Z.abs (wd * Z.of_N W - Z.of_N (w * two31)) < Z.of_N W)%Z /\
   (W <= w * two31 -> (1 <= wd)%Z).
